@@ -156,6 +156,64 @@ func runC07(r *Run) {
 		r.Bad("R2", "anchor/EthMinGasPriceDecorator.AnteHandle", "", "not found")
 	}
 
+	// ---- R7: the refund cap follows the fork rules ----
+	r.Rule("R7", "FLOW/PATH.refund-quotient-by-fork: in ApplyMessageWithConfig the quotient handed to GasToRefund is one of the two go-ethereum constants (RefundQuotient, RefundQuotientEIP3529) and the EIP-3529 one is chosen exactly on the edge on which ChainConfig.IsLondon(block number) is true — not on a fee-market switch (NoBaseFee), a parameter or a flag of the VM config: 'gas consumed after refunds' is defined by the fork rules alone")
+	if am, ok := P.FnOK("(*x/evm/keeper.Keeper).ApplyMessageWithConfig"); ok {
+		nR := 0
+		eachCall(am, func(ci CallInfo) {
+			if ci.Name != "GasToRefund" {
+				return
+			}
+			nR++
+			a := callArgs(ci.Instr)
+			q := a[len(a)-1]
+			// the quotient is a phi over constants; the block that selects the EIP-3529 value is entered over the IsLondon edge
+			okConsts, okFork := false, false
+			if phi, ok := stripValue(q).(*ssa.Phi); ok {
+				okConsts = true
+				for _, e := range phi.Edges {
+					if _, isC := e.(*ssa.Const); !isC {
+						okConsts = false
+					}
+				}
+				// every If that chooses between the phi's incoming edges derives from IsLondon, and one exists
+				nDec := 0
+				okFork = true
+				for _, b := range am.Blocks {
+					ifi, ok := lastIf(b)
+					if !ok || len(b.Succs) != 2 {
+						continue
+					}
+					toPhi := 0
+					for _, sc := range b.Succs {
+						if sc == phi.Block() {
+							toPhi++
+						}
+						for _, pb := range phi.Block().Preds {
+							if sc == pb && len(pb.Instrs) <= 2 {
+								toPhi++
+							}
+						}
+					}
+					if toPhi == 2 {
+						nDec++
+						if !backSlice(ifi.Cond).HasCall(func(g CallInfo) bool { return g.Name == "IsLondon" }) {
+							okFork = false
+						}
+					}
+				}
+				if nDec == 0 {
+					okFork = false
+				}
+			}
+			r.Check(okConsts && okFork, "R7", fnID(am)+"#refund-quotient-by-fork", P.Pos(instrPos(ci.Instr)), "quotient = IsLondon ? RefundQuotientEIP3529 : RefundQuotient",
+				"the refund quotient handed to GasToRefund is not selected by ChainConfig.IsLondon(block number) between the two go-ethereum constants: for some configuration (e.g. London active with the fee market's NoBaseFee set) refunds are capped by the wrong rule and gasUsed differs from the EVM gas consumed after refunds")
+		})
+		r.Floor("R7", "GasToRefund calls in ApplyMessageWithConfig", nR, 1)
+	} else {
+		r.Bad("R7", "anchor/ApplyMessageWithConfig", "", "not found")
+	}
+
 	// ---- R6: the floor itself is not rounded down ----
 	r.Rule("R6", "SHAPE.floor-not-rounded-down: in MinGasPriceDecorator and EthMinGasPriceDecorator neither the required fee that the transaction's fee is compared with, nor the price whose IsZero() opens the bypass, passes through a rounding-down operation (Truncate*, QuoTruncate*, Floor): gasLimit × MinGasPrice is a lower bound, so it may only be rounded up (Ceil) — a truncated price admits fees below the floor and, for a price below 1, switches the floor off")
 	for _, id := range []string{"(app/ante/cosmos.MinGasPriceDecorator).AnteHandle", "(app/ante/evm.EthMinGasPriceDecorator).AnteHandle"} {
